@@ -139,17 +139,20 @@ def run(ctx):
         run.inst("C15.S2", "triangle-plus-angle-quat", quats == {"quat"} and sgn == 1, "spherical triangle corners: gamma %s origin.angle, rotated with origin.%s" % ({1: "+", -1: "-", None: "?"}[sgn], sorted(quats)), where(gv[0].span))
         own = all(any(y == ("param", 3) for y in walk(x)) for x in walk(arg) if x[0] == "call" and x[1].endswith("::index"))
         run.inst("C15.S2", "triangle-own-face-frame", own, "the frame is that of the requested face", where(gv[0].span))
-    for nm in ("add_vertices", "add_midpoints"):
-        p = CRS + nm
-        if p not in facts.fns:
-            run.missing("C15.S2", p)
+    # every point inserted into the CRS vertex table is either a face axis or a ring point in the face's own frame
+    # (theta + origin.angle, rotated with origin.quat) - wherever in the crs module the insertion happens
+    nsites = 0
+    for p, f_ in sorted(facts.fns.items()):
+        if not p.startswith(CRS) or f_["kind"] not in ("Fn", "AssocFn", "Closure") or p in getattr(ctx, "inlined_callees", ()):
             continue
         fx = fn_terms(facts, p)
-        adds = [c for c in fx.calls() if c.callee == CRS + "add"]
-        ok = len(adds) == 1
-        why = "expected one add() call"
-        if ok:
-            arg = adds[0].args[1]
+        for c in fx.calls():
+            if c.callee != CRS + "add":
+                continue
+            arg = c.args[1]
+            if any(x[0] == "field" and x[2] == "axis" for x in walk(arg)) and not any(x[0] == "field" and x[2] in ("quat", "inverse_quat", "angle") for x in walk(arg)):
+                continue     # a face centre
+            nsites += 1
             quats = {x[2] for x in walk(arg) if x[0] == "field" and x[2] in ("quat", "inverse_quat")}
             sph = [x for x in walk(arg) if x[0] == "call" and x[1].endswith("spherical::Spherical::new")]
             sgn = None
@@ -162,8 +165,9 @@ def run(ctx):
                 elif th[0] == "bin" and th[1] == "Sub" and any(x[0] == "field" and x[2] == "angle" for x in walk(th[3])):
                     sgn = -1
             ok = quats == {"quat"} and sgn == 1
-            why = "CRS::%s: theta %s origin.angle, rotated with origin.%s" % (nm, {1: "+", -1: "-", None: "?"}[sgn], sorted(quats))
-        run.inst("C15.S2", "crs-" + nm, ok, why, where(fx.fn["span"]))
+            nm = p[len(CRS):]
+            run.inst("C15.S2", "crs-" + nm, ok, "CRS::%s: theta %s origin.angle, rotated with origin.%s" % (nm, {1: "+", -1: "-", None: "?"}[sgn], sorted(quats)), where(c.span))
+    run.floor("C15.S2", "ring-point insertion sites in the crs module", nsites, 1)
     # inverse_quat = conjugate(quat) wherever an Origin is built
     built = 0
     for path, f in facts.fns.items():
@@ -179,7 +183,15 @@ def run(ctx):
                     t = fo.rvalue(st["rv"], b, i)
                     fl = dict(zip(t[4], t[3]))
                     iq, q = fl.get("inverse_quat"), fl.get("quat")
-                    ok = iq is not None and iq[0] == "call" and iq[1].endswith("quat_conjugate") and strip_site(iq[2][0]) == strip_site(q)
+                    ok = False
+                    if iq is not None and q is not None:
+                        # conjugate(q) however it is spelled: a helper call or the literal [-q0, -q1, -q2, q3]
+                        e = inline_calls(facts, iq)
+                        if e[0] == "agg" and e[1] == "array" and len(e[3]) == 4:
+                            def comp(t_, i_):
+                                t_ = peel(t_)
+                                return t_[0] in ("cindex", "index") and strip_site(peel(t_[1])) == strip_site(peel(q)) and (t_[2] == i_ or const_int(t_[2]) == i_)
+                            ok = all(e[3][i_][0] == "un" and e[3][i_][1] == "Neg" and comp(e[3][i_][2], i_) for i_ in range(3)) and comp(e[3][3], 3)
                     if not ok and iq is not None and q is not None:
                         # field-wise copy of an existing Origin (derived Clone, struct update)
                         a, b = peel(iq), peel(q)
@@ -197,7 +209,7 @@ def run(ctx):
             ok = all(e[i][0] == "un" and e[i][1] == "Neg" for i in range(3)) and e[3][0] != "un"
         run.inst("C15.S2", "conjugate-negates-vector-part", ok, "quat_conjugate returns %s" % (fmt(rt[0]) if rt else None), where(fq.fn["span"]))
     else:
-        run.missing("C15.S2", qc)
+        run.note("quat_conjugate no longer exists as a function: the conjugate is checked component-wise at the Origin construction sites")
     # S3 squashed discipline
     sq_true = []
     for path, f in facts.fns.items():
@@ -212,18 +224,29 @@ def run(ctx):
     # S4: closed-form shortcuts are continuous where they switch: both formulas of a threshold-guarded helper agree at the threshold
     from ..query import feval, Undetermined as _U, returns_under as _ru, regime_assumptions as _ra, deep_resolve as _dr
     from ..terms import const_float as _cf
-    SA = "a5::projections::polyhedral::PolyhedralProjection::safe_acos"
-    if SA not in facts.fns:
-        run.missing("C15.S4", SA)
-    else:
-        fs = fn_terms(facts, SA)
-        sw = []
-        for b in sorted(fs.cfg.reach):
-            t = fs.blocks[b]["term"]
+    # the angle helper is found by what it is, not by its name: the function of the polyhedral module that calls f64::acos
+    # and chooses between two formulas by comparing one of its parameters with a float constant
+    cands = []
+    for p_, f_ in sorted(facts.fns.items()):
+        if f_["kind"] not in ("Fn", "AssocFn") or not p_.startswith("a5::projections::polyhedral::"):
+            continue
+        fx = fn_terms(facts, p_)
+        if not any(c.callee and c.callee.endswith("<impl f64>::acos") for c in fx.calls()):
+            continue
+        sws = []
+        for b in sorted(fx.cfg.reach):
+            t = fx.blocks[b]["term"]
             if t["k"] == "switch":
-                d = fs.switch_term(b)
-                if d[0] == "bin" and d[1] in ("Lt", "Le", "Gt", "Ge") and d[2] == ("param", 2) and _cf(d[3]) is not None:
-                    sw.append((d, _cf(d[3])))
+                d = fx.switch_term(b)
+                if d[0] == "bin" and d[1] in ("Lt", "Le", "Gt", "Ge") and d[2][0] == "param" and _cf(d[3]) is not None and fx.tyof(d[2]) == "f64":
+                    sws.append((d, _cf(d[3])))
+        if sws and f_.get("arg_count", 0) <= 2:
+            cands.append((p_, fx, sws))
+    if len(cands) != 1:
+        run.bad("C15.S4", "safe_acos-continuity", "expected one threshold-guarded acos helper in the polyhedral projection, found %s - cannot decide" % [c[0].split("::")[-1] for c in cands])
+    else:
+        SA, fs, sw = cands[0]
+        XP = sw[0][0][2]
         if len(sw) != 1:
             run.bad("C15.S4", "safe_acos-continuity", "expected one threshold test on the argument, found %d - unrecognised idiom, cannot decide" % len(sw), where(fs.fn["span"]))
         else:
@@ -235,7 +258,7 @@ def run(ctx):
                     rs = [_dr(fs, r, A) for r in _ru(fs, A)]
                     if len(rs) != 1:
                         raise _U("several formulas")
-                    vals.append(feval(rs[0], {("param", 2): thr}))
+                    vals.append(feval(rs[0], {XP: thr}))
                 diff = abs(vals[0] - vals[1])
                 run.inst("C15.S4", "safe_acos-continuity", diff <= 1e-13 and 1e-4 <= thr <= 1e-2,
                          "at the switch point x = %g the two formulas give %.17g and %.17g (difference %.2e, limit 1e-13: three orders below the 1e-12 round-trip bound; the threshold must stay where the exact formula still has 13 good digits)" % (thr, vals[0], vals[1], diff),
